@@ -1,0 +1,12 @@
+//go:build verif
+
+package hdkeychain
+
+// Exports for the /verif conformance harness (build tag verif only).
+
+// VerifBuffers returns the slices that currently back the key material, the
+// cached public key, the chain code and the parent fingerprint of k, so that a
+// test can inspect that memory after k.Zero().
+func VerifBuffers(k *ExtendedKey) [][]byte {
+	return [][]byte{k.key, k.pubKey, k.chainCode, k.parentFP}
+}
